@@ -194,4 +194,11 @@ def c10(run, ck):
                      "state machine explores both successors of every conditional jump; states = reachable (program, block, pc, height)", assumptions=[])
 
 
-PIPELINES = {"C10": c10, "C09": c09, "C03": c03, "C04": c04, "C05": c05, "C06": c06, "C07": c07, "C08": c08}
+def c12(run, ck):
+    eval_stage(run, ck, "refs", 0, 0, parts=8)
+    return dict(rule="every reference graph on <= 3 programs (each node: one successor or a leaf) with every referencing construct on the edges, sampled out-degree-2 graphs on <= 4 programs, "
+                     "chains of length 1..64 through each construct, every case in a child process (main thread and a 2 MB thread); name-collision configurations of one name as type/variable/program/function/macro/map field",
+                assumptions=["the default stack sizes of this machine (8 MB main thread, 2 MB spawned thread)"])
+
+
+PIPELINES = {"C12": c12, "C10": c10, "C09": c09, "C03": c03, "C04": c04, "C05": c05, "C06": c06, "C07": c07, "C08": c08}
